@@ -287,18 +287,19 @@ Variable FFIManager::callFunction(const std::string &module_name,
         }
     } else if (sig.return_type == TYPE_VOID) {
         // void func(...)
+        result.type = TYPE_VOID;
         if (sig.parameters.size() == 0) {
             typedef void (*func_type)();
             func_type func = reinterpret_cast<func_type>(func_ptr);
             func();
+            return result;
         } else if (sig.parameters.size() == 1 &&
                    sig.parameters[0].first == TYPE_INT) {
             typedef void (*func_type)(int);
             func_type func = reinterpret_cast<func_type>(func_ptr);
             func(static_cast<int>(args[0].value));
+            return result;
         }
-        result.type = TYPE_VOID;
-        return result;
     }
 
     last_error_ = "Unsupported function signature for " + function_name +
